@@ -26,6 +26,11 @@ def classify(pid, opts, problem):
 
 def run(tier):
     cr = CheckRun("C18", tier, "other", EXPLANATION, "DESIGN §4 C18")
+    from pyvc import guards
+    # a copper wire between two poles is added only within the reach of BOTH ends (game rule; contract on the emitter)
+    cr.ext_obligations.append(guards.call_guarded_by_min_reach(
+        "dsl_compiler/src/emission/emitter.py::BlueprintEmitter._connect_pole_to_nearest", "add_power_connection", "maximum_wire_distance"))
+    cr.contracts(["contracts.c09"])  # _trim_power_poles: only compiler-added poles may be removed (tagged C18)
     progs = scope(tier)
     progs += [("far-cluster", 'Signal s = ("signal-A", 1);\nEntity a = place("small-lamp", 40, 40);\na.enable = s > 0;\nEntity b = place("small-lamp", 42, 40);\nb.enable = s > 1;\n')]
     modes = [{"optimize": True}, {"optimize": True, "power_pole_type": "small"}, {"optimize": True, "power_pole_type": "medium"},
